@@ -17,7 +17,9 @@ CONFIG = {
              "tree (re-drawing: child permutation / unifurcation insertion / re-seeding for unrooted; NNI neighbour; "
              "edge contraction; independent shape) x permutation of the encoding given to reconstruction x drawn taxon "
              "subsets for the predicates. Exhaustive part: all labelled rooted trees with polytomies on 4 (quick) / 5 "
-             "(thorough) leaves, both rootings, iff-clause on all ordered pairs. Non-trivial = tree with >= 1 internal "
+             "(thorough) leaves, both rootings, iff-clause on all ordered pairs. Large part: deterministic caterpillar / balanced / "
+             "star / random shapes with 63..1030 (quick) / ..2050 (thorough) leaves around word-size and power-of-two "
+             "boundaries, sparse and reversed namespaces. Non-trivial = tree with >= 1 internal "
              "edge and >= 4 leaves (unrooted) / >= 3 leaves (rooted); distinct = (spec, namespace history, rooting, "
              "second-tree recipe)."),
     "exhaustive_note": {"quick": "all 26 labelled rooted trees on 4 leaves x 2 rootings, all ordered pairs",
@@ -475,7 +477,46 @@ def check_pair(ctx, case):
         ctx.nontrivial(["pair", n, i, j, rooted])
 
 
-SUBCHECKS = {"random": check_case, "pairs": check_pair}
+def large_spec(kind, n, seed):
+    """Deterministic big shapes (size-triggered defects need size-directed inputs)."""
+    import random as _r
+    rng = _r.Random(seed)
+    ids = list(range(n))
+    rng.shuffle(ids)
+    nodes = [shapes.leaf(i) for i in ids]
+    if kind == "star":
+        return shapes.internal(nodes)
+    if kind == "caterpillar":
+        cur = nodes[0]
+        for x in nodes[1:]:
+            cur = shapes.internal([cur, x])
+        return cur
+    if kind == "balanced":
+        level = nodes
+        while len(level) > 1:
+            nxt = [shapes.internal(level[k:k + 2]) if k + 1 < len(level) else level[k] for k in range(0, len(level), 2)]
+            level = nxt
+        return level[0]
+    while len(nodes) > 1:
+        k = rng.choice([2, 2, 2, 3, 5])
+        k = min(k, len(nodes))
+        i = rng.randrange(0, len(nodes) - k + 1)
+        nodes[i:i + k] = [shapes.internal(nodes[i:i + k])]
+    return nodes[0]
+
+
+def check_large(ctx, item):
+    spec = large_spec(item["kind"], item["n"], item["n"] * 7 + 1)
+    n = item["n"]
+    hist = {"extra": 2, "order": [n] + list(range(n)) + [n + 1], "removed": [n], "sort": item.get("sort")}
+    case = {"spec": spec, "hist": hist, "rooted": item["rooted"], "opts": {"su": True, "cb": True, "mut": False, "ss": False},
+            "second": {"kind": "nni", "perm": [1, 0, 3], "reseed": 7, "unif": [5], "edge": 11, "child": 1, "sib": 0},
+            "encperm": n, "A": 0b101101, "B": 0b110110}
+    check_case(ctx, case)
+    ctx.cls("large:%s" % item["kind"])
+
+
+SUBCHECKS = {"random": check_case, "pairs": check_pair, "large": check_large}
 
 
 def run(ctx):
@@ -487,3 +528,7 @@ def run(ctx):
     ntrees = len(_all_trees(n))
     items = [{"n": n, "i": i, "j": j, "rooted": r} for r in (True, False) for i in range(ntrees) for j in range(ntrees)]
     runner.run_items(ctx, "pairs", items, check_pair)
+    sizes = [63, 64, 65, 129, 1030] if quick else [63, 64, 65, 127, 128, 129, 257, 1023, 1024, 1025, 1030, 2050]
+    large = [{"kind": k, "n": n, "rooted": r, "sort": srt} for n in sizes for k in ("caterpillar", "balanced", "star", "random")
+             for r, srt in ((True, None), (False, "rev")) if not (k == "caterpillar" and n > 600)]
+    runner.run_items(ctx, "large", large, check_large)
